@@ -7,6 +7,7 @@ import DitModel.Core.Transform
 import DitModel.Lemmas.Table
 import DitModel.Lemmas.InfoReal
 import DitModel.Lemmas.Diverge
+import Mathlib.Algebra.Order.Group.Multiset
 
 set_option linter.unusedSectionVars false
 
@@ -63,6 +64,24 @@ theorem relabel_project_inj (ρ : Nat → σ → τ) (hρ : ∀ i, Function.Inje
   refine forall₂_congr (fun i _ => ?_)
   rw [getElem?_relabelOutcome, getElem?_relabelOutcome]
   exact (Option.map_injective (hρ i)).eq_iff
+
+/-- Sharper form: it is enough that each symbol map is injective on the symbols that occur at
+that position in the two outcomes. -/
+theorem relabel_project_inj_on (ρ : Nat → σ → τ) (X : List Nat) (o o' : List σ)
+    (h : ∀ i ∈ X, ∀ s s', o[i]? = some s → o'[i]? = some s' → ρ i s = ρ i s' → s = s') :
+    project X (relabelOutcome ρ o) = project X (relabelOutcome ρ o')
+      ↔ project X o = project X o' := by
+  rw [project_eq_iff, project_eq_iff]
+  refine forall₂_congr (fun i hi => ?_)
+  rw [getElem?_relabelOutcome, getElem?_relabelOutcome]
+  cases h1 : o[i]? with
+  | none => cases h2 : o'[i]? <;> simp
+  | some s =>
+    cases h2 : o'[i]? with
+    | none => simp
+    | some s' =>
+      simp only [Option.map_some, Option.some.injEq]
+      exact ⟨h i hi s s' h1 h2, fun e => by rw [e]⟩
 
 /-- Relabelling with injective symbol maps is injective on outcomes. -/
 theorem relabelOutcome_injective (ρ : Nat → σ → τ) (hρ : ∀ i, Function.Injective (ρ i)) :
@@ -234,5 +253,806 @@ theorem sum_vals_pushforward_of_fibre {M : Type} [AddCommMonoid M] (φ : α → 
   exact And.comm
 
 end Push
+
+/-! ## Zero rows -/
+
+section ZeroRows
+variable {κ κ' α : Type} [DecidableEq κ'] [AddCommMonoid α]
+
+theorem fibreSum_of_vals_zero (f : κ → κ') (zs : Tab κ α) (hz : ∀ r ∈ zs, r.2 = 0) (x : κ') :
+    fibreSum f zs x = 0 := by
+  unfold fibreSum
+  apply List.sum_eq_zero
+  intro v hv
+  obtain ⟨r, hr, rfl⟩ := List.mem_map.mp hv
+  exact hz r (List.mem_filter.mp hr).1
+
+/-- Appending rows of value zero changes no fibre sum. -/
+theorem fibreSum_append_zero (f : κ → κ') (t zs : Tab κ α) (hz : ∀ r ∈ zs, r.2 = 0) (x : κ') :
+    fibreSum f (t ++ zs) x = fibreSum f t x := by
+  rw [fibreSum_append, fibreSum_of_vals_zero f zs hz, add_zero]
+
+/-- Dropping rows of value zero changes no fibre sum. -/
+theorem fibreSum_filter_of_zero (f : κ → κ') (q : κ × α → Bool) (t : Tab κ α)
+    (h : ∀ r ∈ t, q r = false → r.2 = 0) (x : κ') :
+    fibreSum f (t.filter q) x = fibreSum f t x := by
+  unfold fibreSum
+  rw [List.filter_filter]
+  have e : (t.filter (fun a => (decide (f a.1 = x)) && q a))
+      = (t.filter (fun r => decide (f r.1 = x))).filter q := by
+    rw [List.filter_filter]
+    apply List.filter_congr
+    intro a _
+    exact Bool.and_comm _ _
+  rw [e, sum_map_filter_of_zero]
+  intro r hr hq
+  exact h r (List.mem_filter.mp hr).1 hq
+
+/-- **Zero padding, explicitly.** The marginal of a table with appended zero rows is the old
+marginal followed by one zero per new image: an existing image gets `0` added, a new image gets a
+row of value `0`. -/
+theorem vals_pushforward_append_zero (f : κ → κ') (t zs : Tab κ α) (hz : ∀ r ∈ zs, r.2 = 0) :
+    vals (pushforward f (t ++ zs))
+      = vals (pushforward f t)
+        ++ ((dedup (zs.map (fun r => f r.1))).filter
+            (fun x => decide (x ∉ t.map (fun r => f r.1)))).map (fun _ => 0) := by
+  rw [vals_pushforward_eq, vals_pushforward_eq, List.map_append, Lemmas.Diverge.dedup_append,
+    List.map_append]
+  congr 1
+  · apply List.map_congr_left
+    intro x _
+    exact fibreSum_append_zero f t zs hz x
+  · apply List.map_congr_left
+    intro x hx
+    have hx' : x ∉ t.map (fun r => f r.1) := by simpa using (List.mem_filter.mp hx).2
+    rw [fibreSum_append_zero f t zs hz x]
+    apply fibreSum_eq_zero
+    intro r hr e
+    exact hx' (List.mem_map.mpr ⟨r, hr, e⟩)
+
+theorem padZeros_eq_append {σ : Type} [DecidableEq σ] (extra : List (List σ))
+    (t : Tab (List σ) α) :
+    ∃ zs : Tab (List σ) α, padZeros extra t = t ++ zs ∧ (∀ r ∈ zs, r.2 = 0)
+      ∧ ∀ r ∈ zs, r.1 ∉ keys t := by
+  refine ⟨_, rfl, ?_, ?_⟩
+  · intro r hr
+    obtain ⟨o, _, rfl⟩ := List.mem_map.mp hr
+    rfl
+  · intro r hr
+    obtain ⟨o, ho, rfl⟩ := List.mem_map.mp hr
+    simpa using (List.mem_filter.mp ho).2
+
+end ZeroRows
+
+/-! ## Permuting the variables -/
+
+section PermVars
+variable {σ : Type}
+
+theorem getElem?_newIndex (π : List Nat) (x : Nat) :
+    π[newIndex π x]? = if x ∈ π then some x else none := by
+  unfold newIndex
+  cases h : indexOf? π x with
+  | none =>
+    have : x ∉ π := indexOf?_eq_none_iff.mp h
+    simp [this]
+  | some i =>
+    have h1 := (indexOf?_eq_some h).1
+    have : x ∈ π := List.mem_of_getElem? h1
+    simpa [this] using h1
+
+theorem filterMap_newIndex (π X : List Nat) :
+    (X.map (newIndex π)).filterMap (fun j => π[j]?) = X.filter (fun x => decide (x ∈ π)) := by
+  induction X with
+  | nil => rfl
+  | cons x X ih =>
+    rw [List.map_cons, List.filterMap_cons, getElem?_newIndex, List.filter_cons]
+    by_cases hx : x ∈ π
+    · simp only [hx, if_true, decide_true, ih]
+    · simp only [hx, if_false, decide_false, Bool.false_eq_true, ih]
+
+/-- Out-of-range indices outside `π` are dropped anyway. -/
+theorem project_filter_mem (π X : List Nat) (o : List σ)
+    (h : ∀ x ∈ X, x ∉ π → o.length ≤ x) :
+    project (X.filter (fun x => decide (x ∈ π))) o = project X o := by
+  induction X with
+  | nil => rfl
+  | cons x X ih =>
+    have ih' := ih (fun y hy => h y (List.mem_cons_of_mem _ hy))
+    rw [List.filter_cons]
+    by_cases hx : x ∈ π
+    · simp only [hx, decide_true, if_true, Table.project_cons, ih']
+    · simp only [hx, decide_false, Bool.false_eq_true, if_false, Table.project_cons, ih',
+        List.getElem?_eq_none (h x (by simp) hx)]
+
+/-- **Permuting the variables together with the arguments.** After rearranging an outcome by
+`π` (valid indices), the components `X` are found at the positions `X.map (newIndex π)`. -/
+theorem project_permuteOutcome (π X : List Nat) (o : List σ) (hπ : ∀ i ∈ π, i < o.length)
+    (hX : ∀ x ∈ X, x ∈ π ∨ o.length ≤ x) :
+    project (X.map (newIndex π)) (permuteOutcome π o) = project X o := by
+  unfold permuteOutcome
+  rw [project_project hπ, filterMap_newIndex]
+  exact project_filter_mem π X o (fun x hx hn => (hX x hx).resolve_left hn)
+
+variable {α : Type} [DecidableEq σ] [AddCommMonoid α]
+
+/-- The marginal of the rearranged table on the renamed indices is the marginal of the original
+table: the very same table of rows. -/
+theorem pushforward_permuteTab (π X : List Nat) (n : Nat) (t : Tab (List σ) α)
+    (hlen : ∀ r ∈ t, r.1.length = n) (hπ : ∀ i ∈ π, i < n) (hX : ∀ x ∈ X, x ∈ π ∨ n ≤ x) :
+    pushforward (project (X.map (newIndex π))) (permuteTab π t) = pushforward (project X) t := by
+  unfold permuteTab
+  rw [pushforward_map_key]
+  apply pushforward_congr
+  intro r hr
+  have hl := hlen r hr
+  exact project_permuteOutcome π X r.1 (fun i hi => hl ▸ hπ i hi) (fun x hx => hl ▸ hX x hx)
+
+theorem perm_range_valid {π : List Nat} {n : Nat} (h : π.Perm (List.range n)) :
+    (∀ i ∈ π, i < n) ∧ ∀ x, x ∈ π ∨ n ≤ x := by
+  refine ⟨fun i hi => List.mem_range.mp (h.mem_iff.mp hi), fun x => ?_⟩
+  rcases Nat.lt_or_ge x n with hx | hx
+  · exact Or.inl (h.mem_iff.mpr (List.mem_range.mpr hx))
+  · exact Or.inr hx
+
+end PermVars
+
+/-! ## Marginal of a relabelled table -/
+
+section RelabelPush
+variable {α σ τ : Type} [AddCommMonoid α] [DecidableEq σ] [DecidableEq τ]
+
+/-- Marginal of the relabelled table: same values in the same order. -/
+theorem vals_pushforward_relabel (ρ : Nat → σ → τ) (hρ : ∀ i, Function.Injective (ρ i))
+    (t : Tab (List σ) α) (X : List Nat) :
+    vals (pushforward (project X) (relabelTab ρ t)) = vals (pushforward (project X) t) := by
+  unfold relabelTab
+  rw [pushforward_map_key]
+  apply vals_pushforward_of_equiv
+  intro r _ r' _
+  exact relabel_project_inj ρ hρ X r.1 r'.1
+
+theorem vals_pushforward_relabel_on (ρ : Nat → σ → τ) (t : Tab (List σ) α) (X : List Nat)
+    (hρ : ∀ i ∈ X, ∀ r ∈ t, ∀ r' ∈ t, ∀ s s',
+      r.1[i]? = some s → r'.1[i]? = some s' → ρ i s = ρ i s' → s = s') :
+    vals (pushforward (project X) (relabelTab ρ t)) = vals (pushforward (project X) t) := by
+  unfold relabelTab
+  rw [pushforward_map_key]
+  apply vals_pushforward_of_equiv
+  intro r hr r' hr'
+  exact relabel_project_inj_on ρ X r.1 r'.1 (fun i hi => hρ i hi r hr r' hr')
+
+end RelabelPush
+
+/-! ## Entropy of a marginal under the four transformations -/
+
+section Entropy
+variable {α : Type} [Ring α] [DecidableEq α]
+
+theorem entropyVals_eq_neg_sum (log : α → α) (ps : List α) :
+    entropyVals log ps = -(ps.map (plogp log)).sum := by
+  unfold entropyVals
+  rw [Table.lsum_eq_sum]
+
+theorem plogp_zero (log : α → α) : plogp log (0 : α) = 0 := by
+  simp [plogp]
+
+/-- The entropy of a list of values does not depend on their order (any ring, any `log`). -/
+theorem entropyVals_perm (log : α → α) {ps qs : List α} (h : ps.Perm qs) :
+    entropyVals log ps = entropyVals log qs := by
+  rw [entropyVals_eq_neg_sum, entropyVals_eq_neg_sum, (h.map _).sum_eq]
+
+/-- Zero values contribute nothing to the entropy (any ring, any `log`). -/
+theorem entropyVals_append_zeros (log : α → α) (ps zs : List α) (hz : ∀ z ∈ zs, z = 0) :
+    entropyVals log (ps ++ zs) = entropyVals log ps := by
+  rw [entropyVals_eq_neg_sum, entropyVals_eq_neg_sum, List.map_append, List.sum_append]
+  have : (zs.map (plogp log)).sum = 0 := by
+    apply List.sum_eq_zero
+    intro v hv
+    obtain ⟨z, hz', rfl⟩ := List.mem_map.mp hv
+    rw [hz z hz', plogp_zero]
+  rw [this, add_zero]
+
+variable {σ τ : Type} [DecidableEq σ] [DecidableEq τ]
+
+theorem entropyOf_def (log : α → α) (t : Tab (List σ) α) (X : List Nat) :
+    entropyOf log t X = entropyVals log (vals (pushforward (project X) t)) := rfl
+
+theorem entropyOf_relabel (log : α → α) (ρ : Nat → σ → τ) (hρ : ∀ i, Function.Injective (ρ i))
+    (t : Tab (List σ) α) (X : List Nat) :
+    entropyOf log (relabelTab ρ t) X = entropyOf log t X := by
+  rw [entropyOf_def, entropyOf_def, vals_pushforward_relabel ρ hρ]
+
+theorem entropyOf_relabel_on (log : α → α) (ρ : Nat → σ → τ) (t : Tab (List σ) α) (X : List Nat)
+    (hρ : ∀ i ∈ X, ∀ r ∈ t, ∀ r' ∈ t, ∀ s s',
+      r.1[i]? = some s → r'.1[i]? = some s' → ρ i s = ρ i s' → s = s') :
+    entropyOf log (relabelTab ρ t) X = entropyOf log t X := by
+  rw [entropyOf_def, entropyOf_def, vals_pushforward_relabel_on ρ t X hρ]
+
+theorem entropyOf_perm_rows (log : α → α) {t t' : Tab (List σ) α} (h : t'.Perm t)
+    (X : List Nat) : entropyOf log t' X = entropyOf log t X :=
+  entropyVals_perm log (vals_pushforward_perm (project X) h)
+
+/-- Tables with equal fibre sums on `X` have the same entropy on `X`. -/
+theorem entropyOf_of_fibre (log : α → α) (s t : Tab (List σ) α) (X : List Nat)
+    (h : ∀ x, fibreSum (project X) s x = fibreSum (project X) t x) :
+    entropyOf log s X = entropyOf log t X := by
+  rw [entropyOf_def, entropyOf_def, entropyVals_eq_neg_sum, entropyVals_eq_neg_sum,
+    sum_vals_pushforward_of_fibre (plogp log) (plogp_zero log) (project X) s t h]
+
+theorem entropyOf_append_zero (log : α → α) (t zs : Tab (List σ) α) (hz : ∀ r ∈ zs, r.2 = 0)
+    (X : List Nat) : entropyOf log (t ++ zs) X = entropyOf log t X :=
+  entropyOf_of_fibre log _ _ X (fibreSum_append_zero (project X) t zs hz)
+
+theorem entropyOf_padZeros (log : α → α) (extra : List (List σ)) (t : Tab (List σ) α)
+    (X : List Nat) : entropyOf log (padZeros extra t) X = entropyOf log t X := by
+  obtain ⟨zs, e, hz, _⟩ := padZeros_eq_append extra t
+  rw [e]
+  exact entropyOf_append_zero log t zs hz X
+
+theorem entropyOf_filter_of_zero (log : α → α) (q : List σ × α → Bool) (t : Tab (List σ) α)
+    (h : ∀ r ∈ t, q r = false → r.2 = 0) (X : List Nat) :
+    entropyOf log (t.filter q) X = entropyOf log t X :=
+  entropyOf_of_fibre log _ _ X (fibreSum_filter_of_zero (project X) q t h)
+
+theorem entropyOf_trim (log : α → α) (t : Tab (List σ) α) (X : List Nat) :
+    entropyOf log (t.filter (fun r => decide (r.2 ≠ 0))) X = entropyOf log t X :=
+  entropyOf_filter_of_zero log _ t (fun r _ hq => by simpa using hq) X
+
+theorem entropyOf_permuteVars_gen (log : α → α) (π X : List Nat) (n : Nat) (t : Tab (List σ) α)
+    (hlen : ∀ r ∈ t, r.1.length = n) (hπ : ∀ i ∈ π, i < n) (hX : ∀ x ∈ X, x ∈ π ∨ n ≤ x) :
+    entropyOf log (permuteTab π t) (X.map (newIndex π)) = entropyOf log t X := by
+  rw [entropyOf_def, entropyOf_def, pushforward_permuteTab π X n t hlen hπ hX]
+
+theorem entropyOf_permuteVars (log : α → α) (π : List Nat) (n : Nat) (t : Tab (List σ) α)
+    (hlen : ∀ r ∈ t, r.1.length = n) (hπ : π.Perm (List.range n)) (X : List Nat) :
+    entropyOf log (permuteTab π t) (X.map (newIndex π)) = entropyOf log t X :=
+  entropyOf_permuteVars_gen log π X n t hlen (perm_range_valid hπ).1
+    (fun x _ => (perm_range_valid hπ).2 x)
+
+end Entropy
+
+/-! ## Entropy combinations -/
+
+section Eval
+variable {α : Type} [Zero α] [Add α] [Mul α]
+
+/-- `Comb.eval` only looks at the set function on the sets occurring in the combination. -/
+theorem eval_congr (cast : Rat → α) (H₁ H₂ : VSet → α) (c : Comb)
+    (h : ∀ r ∈ c, H₁ r.2 = H₂ r.2) : Comb.eval cast H₁ c = Comb.eval cast H₂ c := by
+  unfold Comb.eval
+  congr 1
+  apply List.map_congr_left
+  intro r hr
+  rw [h r hr]
+
+end Eval
+
+/-! ## Label alignment under an injective key map and under zero padding -/
+
+section Align
+variable {κ κ' α : Type} [DecidableEq κ] [DecidableEq κ'] [AddCommMonoid α]
+
+theorem lookup?_map_inj (φ : κ → κ') (hφ : Function.Injective φ) (t : Tab κ α) (k : κ) :
+    lookup? (t.map (fun r => (φ r.1, r.2))) (φ k) = lookup? t k := by
+  induction t with
+  | nil => rfl
+  | cons r t ih =>
+    rw [List.map_cons, lookup?_cons, lookup?_cons, ih]
+    by_cases e : r.1 = k
+    · simp [e]
+    · have e' : ¬ φ r.1 = φ k := fun h => e (hφ h)
+      simp [e, e']
+
+theorem lookupD_map_inj (φ : κ → κ') (hφ : Function.Injective φ) (t : Tab κ α) (k : κ) :
+    lookupD 0 (t.map (fun r => (φ r.1, r.2))) (φ k) = lookupD 0 t k := by
+  unfold lookupD
+  rw [lookup?_map_inj φ hφ]
+
+/-- **Alignment along the first table is label-blind**: renaming the labels of both tables by
+an injective map gives the very same list of pairs. -/
+theorem alignPair_map_inj (φ : κ → κ') (hφ : Function.Injective φ) (t1 t2 : Tab κ α) :
+    alignPair (t1.map (fun r => (φ r.1, r.2))) (t2.map (fun r => (φ r.1, r.2)))
+      = alignPair t1 t2 := by
+  unfold alignPair
+  rw [List.map_map]
+  apply List.map_congr_left
+  intro r _
+  simp only [Function.comp_apply]
+  rw [lookupD_map_inj φ hφ]
+
+theorem dedup_map_inj (φ : κ → κ') (hφ : Function.Injective φ) (l : List κ) :
+    dedup (l.map φ) = (dedup l).map φ := by
+  have h1 := dedup_map_eq φ l
+  have h2 := dedup_map_eq (fun x : κ => x) l
+  rw [List.map_id'] at h2
+  rw [h1, h2, reps_congr φ (fun x : κ => x) l (fun a _ b _ => hφ.eq_iff)]
+  simp
+
+/-- **Alignment over the union of labels is label-blind** as well. -/
+theorem alignUnion_map_inj (φ : κ → κ') (hφ : Function.Injective φ) (t1 t2 : Tab κ α) :
+    alignUnion (t1.map (fun r => (φ r.1, r.2))) (t2.map (fun r => (φ r.1, r.2)))
+      = alignUnion t1 t2 := by
+  unfold alignUnion
+  have hk : ∀ t : Tab κ α, keys (t.map (fun r => (φ r.1, r.2))) = (keys t).map φ := by
+    intro t; simp [keys, Function.comp_def]
+  rw [hk, hk, ← List.map_append, dedup_map_inj φ hφ, List.map_map]
+  apply List.map_congr_left
+  intro k _
+  simp only [Function.comp_apply]
+  rw [lookupD_map_inj φ hφ, lookupD_map_inj φ hφ]
+
+theorem lookupD_of_vals_zero (zs : Tab κ α) (hz : ∀ r ∈ zs, r.2 = 0) (k : κ) :
+    lookupD 0 zs k = 0 := by
+  induction zs with
+  | nil => rfl
+  | cons r zs ih =>
+    unfold lookupD at ih ⊢
+    rw [lookup?_cons]
+    by_cases e : r.1 = k
+    · simp [e, hz r (by simp)]
+    · simp only [e, if_false]
+      exact ih (fun x hx => hz x (List.mem_cons_of_mem _ hx))
+
+/-- Appended rows of value zero are invisible to `lookupD 0`. -/
+theorem lookupD_append_zero (t zs : Tab κ α) (hz : ∀ r ∈ zs, r.2 = 0) (k : κ) :
+    lookupD 0 (t ++ zs) k = lookupD 0 t k := by
+  induction t with
+  | nil => rw [List.nil_append, lookupD_of_vals_zero zs hz]; rfl
+  | cons r t ih =>
+    unfold lookupD at ih ⊢
+    rw [List.cons_append, lookup?_cons, lookup?_cons]
+    by_cases e : r.1 = k
+    · simp [e]
+    · simp only [e, if_false]
+      exact ih
+
+theorem alignPair_append_zero_right (t1 t2 zs : Tab κ α) (hz : ∀ r ∈ zs, r.2 = 0) :
+    alignPair t1 (t2 ++ zs) = alignPair t1 t2 := by
+  unfold alignPair
+  apply List.map_congr_left
+  intro r _
+  rw [lookupD_append_zero t2 zs hz]
+
+theorem alignPair_append_left (t1 zs t2 : Tab κ α) :
+    alignPair (t1 ++ zs) t2 = alignPair t1 t2 ++ alignPair zs t2 := by
+  simp [alignPair]
+
+theorem alignPair_zero_left (zs t2 : Tab κ α) (hz : ∀ r ∈ zs, r.2 = 0) :
+    ∀ p ∈ alignPair zs t2, p.1 = 0 := by
+  intro p hp
+  obtain ⟨r, hr, rfl⟩ := List.mem_map.mp hp
+  exact hz r hr
+
+/-- **Union alignment under zero padding**: the padded tables give the old pairs, possibly in
+another order (new labels of the first table come before the old labels of the second), plus
+pairs `(0, 0)` for the labels that only the padding has. -/
+theorem alignUnion_append_zero_perm (t1 z1 t2 z2 : Tab κ α) (hz1 : ∀ r ∈ z1, r.2 = 0)
+    (hz2 : ∀ r ∈ z2, r.2 = 0) :
+    ∃ zs : List (α × α), (∀ p ∈ zs, p = (0, 0))
+      ∧ (alignUnion (t1 ++ z1) (t2 ++ z2)).Perm (alignUnion t1 t2 ++ zs) := by
+  let D := dedup (keys t1 ++ keys t2)
+  let D' := dedup (keys (t1 ++ z1) ++ keys (t2 ++ z2))
+  let P : κ → α × α := fun k => (lookupD 0 t1 k, lookupD 0 t2 k)
+  have hP : (fun k => (lookupD 0 (t1 ++ z1) k, lookupD 0 (t2 ++ z2) k)) = P := by
+    funext k
+    rw [lookupD_append_zero t1 z1 hz1, lookupD_append_zero t2 z2 hz2]
+  have hsub : ∀ a, a ∈ D → a ∈ D' := by
+    intro a ha
+    simp only [D, D', Table.mem_dedup, keys_append, List.mem_append] at ha ⊢
+    rcases ha with h | h
+    · exact Or.inl (Or.inl h)
+    · exact Or.inr (Or.inl h)
+  have hperm : D'.Perm (D ++ D'.filter (fun a => decide (a ∉ D))) := by
+    rw [List.perm_ext_iff_of_nodup (nodup_dedup _)]
+    · intro a
+      simp only [List.mem_append, List.mem_filter, decide_eq_true_eq]
+      constructor
+      · intro h
+        by_cases ha : a ∈ D
+        · exact Or.inl ha
+        · exact Or.inr ⟨h, ha⟩
+      · rintro (h | h)
+        · exact hsub a h
+        · exact h.1
+    · refine List.nodup_append.mpr ⟨nodup_dedup _, (nodup_dedup _).filter _, ?_⟩
+      intro a ha b hb e
+      subst e
+      have := (List.mem_filter.mp hb).2
+      simp only [decide_eq_true_eq] at this
+      exact this ha
+  refine ⟨(D'.filter (fun a => decide (a ∉ D))).map P, ?_, ?_⟩
+  · intro p hp
+    obtain ⟨k, hk, rfl⟩ := List.mem_map.mp hp
+    have hk' : k ∉ D := by simpa using (List.mem_filter.mp hk).2
+    simp only [D, Table.mem_dedup, List.mem_append, not_or] at hk'
+    simp only [P]
+    rw [lookupD_of_not_mem 0 hk'.1, lookupD_of_not_mem 0 hk'.2]
+  · show (D'.map _).Perm (D.map _ ++ _)
+    rw [hP, ← List.map_append]
+    exact hperm.map P
+
+/-- Any sum `Σ g(p, q)` over the union alignment with `g (0, 0) = 0` is unchanged by zero
+padding of both tables. -/
+theorem sum_alignUnion_append_zero {M : Type} [AddCommMonoid M] (g : α × α → M)
+    (hg : g (0, 0) = 0) (t1 z1 t2 z2 : Tab κ α) (hz1 : ∀ r ∈ z1, r.2 = 0)
+    (hz2 : ∀ r ∈ z2, r.2 = 0) :
+    ((alignUnion (t1 ++ z1) (t2 ++ z2)).map g).sum = ((alignUnion t1 t2).map g).sum := by
+  obtain ⟨zs, hzs, hp⟩ := alignUnion_append_zero_perm t1 z1 t2 z2 hz1 hz2
+  rw [(hp.map g).sum_eq, List.map_append, List.sum_append]
+  have : (zs.map g).sum = 0 := by
+    apply List.sum_eq_zero
+    intro v hv
+    obtain ⟨p, hp', rfl⟩ := List.mem_map.mp hv
+    rw [hzs p hp', hg]
+  rw [this, add_zero]
+
+end Align
+
+/-! ## Reordering the groups -/
+
+section Groups
+variable {β M : Type} [AddCommMonoid M]
+
+theorem vunions_perm {l l' : List VSet} (h : l.Perm l') : vunions l = vunions l' := by
+  unfold vunions
+  apply Lemmas.InfoAlg.vnorm_congr
+  intro x
+  simp only [List.mem_flatten]
+  exact ⟨fun ⟨g, hg, hx⟩ => ⟨g, h.mem_iff.mp hg, hx⟩, fun ⟨g, hg, hx⟩ => ⟨g, h.mem_iff.mpr hg, hx⟩⟩
+
+/-- A sum over all sublists of a function that ignores the order inside a sublist does not depend
+on the order of the list. -/
+theorem sum_sublists_perm {l l' : List β} (h : l.Perm l') :
+    ∀ F : List β → M, (∀ a b, a.Perm b → F a = F b) →
+      ((sublists l).map F).sum = ((sublists l').map F).sum := by
+  induction h with
+  | nil => intro F _; rfl
+  | cons x _ ih =>
+    intro F hF
+    simp only [sublists, List.map_append, List.sum_append, List.map_map]
+    rw [ih F hF, ih (F ∘ fun s => x :: s) (fun a b hab => hF _ _ (hab.cons x))]
+  | swap x y l =>
+    intro F hF
+    simp only [sublists, List.map_append, List.sum_append, List.map_map]
+    have e : ((sublists l).map (F ∘ (fun s => y :: s) ∘ fun s => x :: s)).sum
+        = ((sublists l).map (F ∘ (fun s => x :: s) ∘ fun s => y :: s)).sum := by
+      congr 1
+      apply List.map_congr_left
+      intro s _
+      exact hF _ _ (List.Perm.swap x y s)
+    rw [e]
+    abel
+  | trans _ _ ih1 ih2 => intro F hF; rw [ih1 F hF, ih2 F hF]
+
+/-- The same for the `k`-element sublists. -/
+theorem sum_combos_perm {l l' : List β} (h : l.Perm l') :
+    ∀ (k : Nat) (F : List β → M), (∀ a b, a.Perm b → F a = F b) →
+      ((combos k l).map F).sum = ((combos k l').map F).sum := by
+  induction h with
+  | nil => intro k F _; rfl
+  | cons x _ ih =>
+    intro k F hF
+    cases k with
+    | zero => rfl
+    | succ k =>
+      simp only [combos, List.map_append, List.sum_append, List.map_map]
+      rw [ih k (F ∘ fun s => x :: s) (fun a b hab => hF _ _ (hab.cons x)), ih (k + 1) F hF]
+  | swap x y l =>
+    intro k F hF
+    rcases k with _ | _ | k
+    · rfl
+    · simp only [combos, List.map_append, List.sum_append, List.map_cons,
+        List.map_nil, List.sum_cons, List.sum_nil]
+      abel
+    · simp only [combos, List.map_append, List.sum_append, List.map_map]
+      have e : ((combos k l).map (F ∘ (fun s => y :: s) ∘ fun s => x :: s)).sum
+          = ((combos k l).map (F ∘ (fun s => x :: s) ∘ fun s => y :: s)).sum := by
+        congr 1
+        apply List.map_congr_left
+        intro s _
+        exact hF _ _ (List.Perm.swap x y s)
+      rw [e]
+      abel
+  | trans _ _ ih1 ih2 => intro k F hF; rw [ih1 k F hF, ih2 k F hF]
+
+end Groups
+
+/-! ## Set partitions of a reordered list (for the CAEKL candidates) -/
+
+section Partitions
+variable {β N : Type} [AddCommMonoid N]
+
+/-- Sum of `F` over the results of applying `g` to one block of `p` (all positions). -/
+def modSum (g : List β → List β) : (List (List β) → N) → List (List β) → N
+  | _, [] => 0
+  | F, b :: p => F (g b :: p) + modSum g (fun q => F (b :: q)) p
+
+theorem modSum_eq (g : List β → List β) (F : List (List β) → N) (p : List (List β)) :
+    ((List.range p.length).map (fun i => F (p.modify i g))).sum = modSum g F p := by
+  induction p generalizing F with
+  | nil => rfl
+  | cons b p ih =>
+    rw [List.length_cons, List.range_succ_eq_map, List.map_cons, List.sum_cons, List.map_map]
+    show F (g b :: p) + _ = F (g b :: p) + modSum g (fun q => F (b :: q)) p
+    rw [← ih]
+    rfl
+
+theorem modSum_congr (g : List β → List β) (F F' : List (List β) → N) (p : List (List β))
+    (h : ∀ q, F q = F' q) : modSum g F p = modSum g F' p := by
+  have : F = F' := funext h
+  rw [this]
+
+theorem modSum_add (g : List β → List β) (F F' : List (List β) → N) (p : List (List β)) :
+    modSum g (fun q => F q + F' q) p = modSum g F p + modSum g F' p := by
+  induction p generalizing F F' with
+  | nil => simp [modSum]
+  | cons b p ih =>
+    simp only [modSum]
+    rw [ih]
+    abel
+
+/-- Invariance of a function of partitions under the order of the blocks. -/
+def InvBlocks (F : List (List β) → N) : Prop := ∀ p q : List (List β), p.Perm q → F p = F q
+/-- Invariance of a function of partitions under the order inside the blocks. -/
+def InvInner (F : List (List β) → N) : Prop :=
+  ∀ p q : List (List β), List.Forall₂ List.Perm p q → F p = F q
+
+theorem forall₂_perm_refl (p : List (List β)) : List.Forall₂ List.Perm p p :=
+  List.forall₂_same.mpr (fun _ _ => List.Perm.refl _)
+
+theorem InvBlocks.cons {F : List (List β) → N} (h : InvBlocks F) (b : List β) :
+    InvBlocks (fun q => F (b :: q)) := fun _ _ hpq => h _ _ (hpq.cons b)
+
+theorem InvInner.cons {F : List (List β) → N} (h : InvInner F) (b : List β) :
+    InvInner (fun q => F (b :: q)) :=
+  fun _ _ hpq => h _ _ (List.Forall₂.cons (List.Perm.refl b) hpq)
+
+theorem modSum_perm (g : List β → List β) {p p' : List (List β)} (h : p.Perm p') :
+    ∀ F : List (List β) → N, InvBlocks F → modSum g F p = modSum g F p' := by
+  induction h with
+  | nil => intro F _; rfl
+  | cons b h ih =>
+    intro F hF
+    simp only [modSum]
+    rw [hF _ _ (h.cons (g b)), ih _ (hF.cons b)]
+  | swap a b p =>
+    intro F hF
+    simp only [modSum]
+    rw [hF (g b :: a :: p) (a :: g b :: p) (List.Perm.swap _ _ _),
+      hF (b :: g a :: p) (g a :: b :: p) (List.Perm.swap _ _ _),
+      modSum_congr g (fun q => F (b :: a :: q)) (fun q => F (a :: b :: q)) p
+        (fun q => hF _ _ (List.Perm.swap _ _ _))]
+    abel
+  | trans _ _ ih1 ih2 => intro F hF; rw [ih1 F hF, ih2 F hF]
+
+theorem modSum_inner (x : β) {p p' : List (List β)} (h : List.Forall₂ List.Perm p p') :
+    ∀ F : List (List β) → N, InvInner F →
+      modSum (fun b => x :: b) F p = modSum (fun b => x :: b) F p' := by
+  induction h with
+  | nil => intro F _; rfl
+  | cons hab hrest ih =>
+    intro F hF
+    rename_i a b p p'
+    simp only [modSum]
+    rw [hF _ _ (List.Forall₂.cons (hab.cons x) hrest), ih _ (hF.cons a)]
+    congr 1
+    apply modSum_congr
+    intro q
+    exact hF _ _ (List.Forall₂.cons hab (forall₂_perm_refl q))
+
+/-- Sum of `F` over all ways of adding `x` to the partition `p`. -/
+def insSum (x : β) (F : List (List β) → N) (p : List (List β)) : N :=
+  F ([x] :: p) + modSum (fun b => x :: b) F p
+
+theorem insSum_invBlocks (x : β) {F : List (List β) → N} (h : InvBlocks F) :
+    InvBlocks (insSum x F) := by
+  intro p q hpq
+  unfold insSum
+  rw [h _ _ (hpq.cons [x]), modSum_perm _ hpq F h]
+
+theorem insSum_invInner (x : β) {F : List (List β) → N} (h : InvInner F) :
+    InvInner (insSum x F) := by
+  intro p q hpq
+  unfold insSum
+  rw [h _ _ (List.Forall₂.cons (List.Perm.refl _) hpq), modSum_inner x hpq F h]
+
+theorem sum_setPartitions_cons (x : β) (l : List β) (F : List (List β) → N) :
+    ((setPartitions (x :: l)).map F).sum = ((setPartitions l).map (insSum x F)).sum := by
+  show (((setPartitions l).flatMap _).map F).sum = _
+  induction setPartitions l with
+  | nil => rfl
+  | cons p ps ih =>
+    rw [List.flatMap_cons, List.map_append, List.sum_append, ih, List.map_cons, List.sum_cons,
+      List.map_cons, List.sum_cons, List.map_map]
+    congr 1
+    unfold insSum
+    rw [← modSum_eq]
+    rfl
+
+/-- Adding `x` to one block and `y` to one block commute. -/
+theorem modSum_modSum_comm (x y : β) (p : List (List β)) :
+    ∀ F : List (List β) → N, InvInner F →
+      modSum (fun b => x :: b) (fun q => modSum (fun b => y :: b) F q) p
+        = modSum (fun b => y :: b) (fun q => modSum (fun b => x :: b) F q) p := by
+  induction p with
+  | nil => intro F _; rfl
+  | cons b p ih =>
+    intro F hF
+    simp only [modSum]
+    rw [modSum_add, modSum_add, ih _ (hF.cons b),
+      hF ((y :: x :: b) :: p) ((x :: y :: b) :: p)
+        (List.Forall₂.cons (List.Perm.swap _ _ _) (forall₂_perm_refl p))]
+    abel
+
+theorem insSum_comm (x y : β) (p : List (List β)) (F : List (List β) → N)
+    (h1 : InvBlocks F) (h2 : InvInner F) :
+    insSum x (insSum y F) p = insSum y (insSum x F) p := by
+  unfold insSum
+  simp only [modSum]
+  rw [modSum_add, modSum_add, modSum_modSum_comm x y p F h2,
+    h1 ([y] :: [x] :: p) ([x] :: [y] :: p) (List.Perm.swap _ _ _),
+    h2 ([y, x] :: p) ([x, y] :: p)
+      (List.Forall₂.cons (List.Perm.swap _ _ _) (forall₂_perm_refl p))]
+  abel
+
+/-- **Set partitions of a reordered list.** A sum over all set partitions of a function that
+ignores the order of the blocks and the order inside the blocks does not depend on the order of
+the list. -/
+theorem sum_setPartitions_perm {l l' : List β} (h : l.Perm l') :
+    ∀ F : List (List β) → N, InvBlocks F → InvInner F →
+      ((setPartitions l).map F).sum = ((setPartitions l').map F).sum := by
+  induction h with
+  | nil => intro F _ _; rfl
+  | cons x _ ih =>
+    intro F h1 h2
+    rw [sum_setPartitions_cons, sum_setPartitions_cons,
+      ih _ (insSum_invBlocks x h1) (insSum_invInner x h2)]
+  | swap x y l =>
+    intro F h1 h2
+    rw [sum_setPartitions_cons, sum_setPartitions_cons, sum_setPartitions_cons,
+      sum_setPartitions_cons]
+    congr 1
+    apply List.map_congr_left
+    intro p _
+    exact insSum_comm x y p F h1 h2
+  | trans _ _ ih1 ih2 => intro F h1 h2; rw [ih1 F h1 h2, ih2 F h1 h2]
+
+/-- Multiset form: the values of `v` on the set partitions satisfying `q`. -/
+theorem map_filter_setPartitions_perm {R : Type} {l l' : List β} (h : l.Perm l')
+    (q : List (List β) → Bool) (v : List (List β) → R)
+    (hq1 : ∀ p p' : List (List β), p.Perm p' → q p = q p')
+    (hq2 : ∀ p p' : List (List β), List.Forall₂ List.Perm p p' → q p = q p')
+    (hv1 : ∀ p p' : List (List β), p.Perm p' → v p = v p')
+    (hv2 : ∀ p p' : List (List β), List.Forall₂ List.Perm p p' → v p = v p') :
+    (((setPartitions l).filter q).map v).Perm (((setPartitions l').filter q).map v) := by
+  have key : ∀ L : List (List (List β)),
+      (L.map (fun p => if q p = true then ({v p} : Multiset R) else 0)).sum
+        = ((L.filter q).map v : List R) := by
+    intro L
+    induction L with
+    | nil => rfl
+    | cons p L ih =>
+      rw [List.map_cons, List.sum_cons, ih, List.filter_cons]
+      by_cases hp : q p = true
+      · rw [if_pos hp, if_pos hp, List.map_cons]
+        rfl
+      · rw [if_neg hp, if_neg hp, zero_add]
+  have := sum_setPartitions_perm h (fun p => if q p = true then ({v p} : Multiset R) else 0)
+    (fun p p' hp => by simp only [hq1 p p' hp, hv1 p p' hp])
+    (fun p p' hp => by simp only [hq2 p p' hp, hv2 p p' hp])
+  rw [key, key] at this
+  exact Multiset.coe_eq_coe.mp this
+
+end Partitions
+
+theorem map_eq_of_forall₂ {β γ : Type} {R : β → β → Prop} (f : β → γ)
+    (hR : ∀ a b, R a b → f a = f b) {p p' : List β} (h : List.Forall₂ R p p') :
+    p.map f = p'.map f := by
+  induction h with
+  | nil => rfl
+  | cons hab _ ih => rw [List.map_cons, List.map_cons, hR _ _ hab, ih]
+
+/-! ## Key maps that are injective on the stored keys only; trimming -/
+
+section AlignOn
+variable {κ κ' α : Type} [DecidableEq κ] [DecidableEq κ'] [AddCommMonoid α]
+
+theorem lookup?_map_injOn (φ : κ → κ') (t : Tab κ α) (k : κ)
+    (hφ : ∀ a ∈ keys t, φ a = φ k → a = k) :
+    lookup? (t.map (fun r => (φ r.1, r.2))) (φ k) = lookup? t k := by
+  induction t with
+  | nil => rfl
+  | cons r t ih =>
+    rw [List.map_cons, lookup?_cons, lookup?_cons,
+      ih (fun a ha => hφ a (List.mem_cons_of_mem _ ha))]
+    by_cases e : r.1 = k
+    · simp [e]
+    · have e' : ¬ φ r.1 = φ k := fun h => e (hφ r.1 (by simp) h)
+      simp [e, e']
+
+theorem alignPair_map_injOn (φ : κ → κ') (t1 t2 : Tab κ α)
+    (hφ : ∀ a ∈ keys t2, ∀ b ∈ keys t1, φ a = φ b → a = b) :
+    alignPair (t1.map (fun r => (φ r.1, r.2))) (t2.map (fun r => (φ r.1, r.2)))
+      = alignPair t1 t2 := by
+  unfold alignPair
+  rw [List.map_map]
+  apply List.map_congr_left
+  intro r hr
+  simp only [Function.comp_apply]
+  unfold lookupD
+  rw [lookup?_map_injOn φ t2 r.1 (fun a ha => hφ a ha r.1 (mem_keys_of_mem hr))]
+
+theorem alignUnion_map_injOn (φ : κ → κ') (t1 t2 : Tab κ α)
+    (hφ : ∀ a ∈ keys t1 ++ keys t2, ∀ b ∈ keys t1 ++ keys t2, φ a = φ b → a = b) :
+    alignUnion (t1.map (fun r => (φ r.1, r.2))) (t2.map (fun r => (φ r.1, r.2)))
+      = alignUnion t1 t2 := by
+  unfold alignUnion
+  have hk : ∀ t : Tab κ α, keys (t.map (fun r => (φ r.1, r.2))) = (keys t).map φ := by
+    intro t; simp [keys, Function.comp_def]
+  have hd : dedup ((keys t1 ++ keys t2).map φ) = (dedup (keys t1 ++ keys t2)).map φ := by
+    have h1 := dedup_map_eq φ (keys t1 ++ keys t2)
+    have h2 := dedup_map_eq (fun x : κ => x) (keys t1 ++ keys t2)
+    rw [List.map_id'] at h2
+    rw [h1, h2, reps_congr φ (fun x : κ => x) _
+      (fun a ha b hb => ⟨hφ a ha b hb, fun e => by rw [e]⟩)]
+    simp
+  rw [hk, hk, ← List.map_append, hd, List.map_map]
+  apply List.map_congr_left
+  intro k hk'
+  have hk'' : k ∈ keys t1 ++ keys t2 := Table.mem_dedup.mp hk'
+  simp only [Function.comp_apply]
+  unfold lookupD
+  rw [lookup?_map_injOn φ t1 k (fun a ha => hφ a (List.mem_append_left _ ha) k hk''),
+    lookup?_map_injOn φ t2 k (fun a ha => hφ a (List.mem_append_right _ ha) k hk'')]
+
+/-- Rearranging the variables by a permutation is injective on outcomes of the right length. -/
+theorem permuteOutcome_inj {σ : Type} {π : List Nat} {n : Nat} (hπ : π.Perm (List.range n))
+    {o o' : List σ} (ho : o.length = n) (ho' : o'.length = n)
+    (h : permuteOutcome π o = permuteOutcome π o') : o = o' := by
+  unfold permuteOutcome at h
+  rw [project_eq_iff] at h
+  apply List.ext_getElem?
+  intro i
+  by_cases hi : i < n
+  · exact h i (hπ.mem_iff.mpr (List.mem_range.mpr hi))
+  · rw [List.getElem?_eq_none (by omega), List.getElem?_eq_none (by omega)]
+
+/-- Trimming the second table (pairwise distinct keys) does not change any lookup with default
+`0`. -/
+theorem lookupD_trim [DecidableEq α] (t : Tab κ α) (hnd : (keys t).Nodup) (k : κ) :
+    lookupD 0 (t.filter (fun r => decide (r.2 ≠ 0))) k = lookupD 0 t k := by
+  rw [lookupD_filter _ hnd]
+  unfold lookupD
+  cases lookup? t k with
+  | none => rfl
+  | some v =>
+    by_cases hv : v = 0
+    · simp [hv]
+    · simp [hv]
+
+theorem alignPair_trim [DecidableEq α] (t1 t2 : Tab κ α) (hnd : (keys t2).Nodup) :
+    alignPair (t1.filter (fun r => decide (r.2 ≠ 0))) (t2.filter (fun r => decide (r.2 ≠ 0)))
+      = (alignPair t1 t2).filter (fun p => decide (p.1 ≠ 0)) := by
+  unfold alignPair
+  rw [List.filter_map]
+  apply List.map_congr_left
+  intro r _
+  rw [lookupD_trim t2 hnd]
+
+end AlignOn
+
+/-- Pairs `(0, q)` may be dropped from KL and cross entropy. -/
+theorem klVals_filter_fst (log : ℝ → ℝ) (pq : List (ℝ × ℝ)) :
+    klVals log (pq.filter (fun p => decide (p.1 ≠ 0))) = klVals log pq
+      ∧ crossEntropyVals log (pq.filter (fun p => decide (p.1 ≠ 0)))
+          = crossEntropyVals log pq := by
+  have hp := List.filter_append_perm (fun p : ℝ × ℝ => decide (p.1 ≠ 0)) pq
+  have hz : ∀ r ∈ pq.filter (fun x => !decide (x.1 ≠ 0)), r.1 = 0 := by
+    intro r hr
+    simpa using (List.mem_filter.mp hr).2
+  rw [← Lemmas.Diverge.klVals_perm log hp, ← Lemmas.Diverge.xentVals_perm log hp,
+    Lemmas.Diverge.klVals_append_zero log _ _ hz, Lemmas.Diverge.xentVals_append_zero log _ _ hz]
+  exact ⟨rfl, rfl⟩
 
 end Dit.Lemmas.Transform
